@@ -21,6 +21,15 @@ def _alarm(signum, frame):
 
 
 def setup_runtime():
+    # memory guard: a defect that blows up memory must surface as an exception in this worker, not
+    # take the machine down (virtual address space limit; torch itself maps a few GB)
+    import resource
+
+    lim = int(os.environ.get("VERIF_WORKER_MEM_GB", "12")) << 30
+    try:
+        resource.setrlimit(resource.RLIMIT_AS, (lim, lim))
+    except (ValueError, OSError):
+        pass
     import torch
 
     torch.set_num_threads(1)
